@@ -135,6 +135,9 @@ func VerifC20Concurrent(pair int) {
 	case 2: // Put racing Shutdown
 		verifrt.Go(func() { kept = p.Put("x", b) })
 		verifrt.Go(func() { p.Shutdown() })
+	case 3: // the first Put of a backend the pool has not seen yet, racing Shutdown
+		verifrt.Go(func() { kept = p.Put("y", b) })
+		verifrt.Go(func() { p.Shutdown() })
 	}
 	verifrt.WaitAll()
 	if pair == 0 {
@@ -143,6 +146,12 @@ func VerifC20Concurrent(pair int) {
 	idle, _ := p.Stats("x")
 	if kept && pair == 0 {
 		verifrt.Assert(idle == 1, "a connection that Put accepted is accounted as idle")
+	}
+	if pair == 3 && kept && !b.closed {
+		// accepted after the shutdown: then it must still be reachable
+		got := p.Get("y")
+		verifrt.Assert(got == net.Conn(b), "a connection that Put accepted is either closed by the shutdown or still handed out afterwards")
+		return
 	}
 	p.Shutdown()
 	verifrt.Assert(!kept || b.closed, "Shutdown closes every connection the pool accepted")
